@@ -24,7 +24,7 @@ def _run(w):
 
 
 def _name(pid, w):
-    txt = w.get('line') or w.get('script') or ' '.join(w.get('script_lines', [])) or repr(w.get('id', ''))
+    txt = w.get('line') or w.get('script') or ' '.join(w.get('script_lines', [])) or (('STDIN ' + w['stdin']) if w.get('stdin') and not w.get('line') else '') or repr(w.get('id', ''))
     if isinstance(txt, list):
         txt = ' '.join(txt)
     txt = txt.replace('\n', '\\n')
